@@ -15,6 +15,9 @@ Model/HostPool.lean (so every macro run IS an event list of the model and the th
            (waiterTimeout, cancel)
     K      virtual time passes MaxIdleConnDuration: T, then the cleaner closes every idle connection
     I      CloseIdleConnections
+    J      CloseIdleConnections on its own goroutine with slow Closes: snapshot under the lock (closeIdle), CloseConn of
+           the first entry (close), then the closer is held inside that Close     U   the held Close returns, the
+           closer closes the next entry of its snapshot (close) — other ops may come in between
   after each op the model is run to quiescence (enqueue, waiterReturn, decAfterFail, release of connections held
   by a dialConnFor that could not deliver) and the observable state is rendered:
       cc=<connsCount>,idle=<n>,q=<actors in connsWait, FIFO, '.'-separated>,dl=<pending dials>,ret=<actor:result,…>
@@ -49,6 +52,7 @@ structure HpD where
   dials : List HpDial
   rets : List (Nat × String)
   wtab : List (Nat × Nat)      -- waiter index → actor (kept after the actor returned: stale queue entries)
+  closing : List Nat := []     -- snapshot of a running CloseIdleConnections: connections it still has to close
 
 def hpSetActor (d : HpD) (a : Nat) (st : HpASt) : HpD :=
   { d with actors := match d.actors[a]? with
@@ -103,7 +107,7 @@ def hpSettleOnce (d : HpD) : Option (Option HpD) :=
   if d.s.failedDials > 0 then (hpStep d .decAfterFail).map some
   else
   -- d. a connection held by a goroutine that is not an actor (dialConnFor that could not deliver): ReleaseConn
-  match d.s.inUse.find? (fun c => (hpHolder d c).isNone) with
+  match d.s.inUse.find? (fun c => (hpHolder d c).isNone && !d.closing.contains c) with
   | some c => (hpStep d (.release c)).map some
   | none => some none
 
@@ -182,6 +186,17 @@ def hpOp (d : HpD) (code : Char) (n : Nat) : Option HpD :=
   | 'T' => hpTimeouts d
   | 'K' => (hpTimeouts d).bind fun d1 => (hpSettle 200 d1).bind hpCloseIdle
   | 'I' => hpCloseIdle d
+  | 'J' =>
+    -- CloseIdleConnections with slow Closes: the lock section takes the snapshot (closeIdle), the closer calls
+    -- CloseConn on the first entry (decConnsCount = `close`) and is held inside that connection's Close
+    match d.s.idle with
+    | [] => none
+    | c :: rest => (hpStep d .closeIdle).bind fun d1 => (hpStep d1 (.close c)).map fun d2 => { d2 with closing := rest }
+  | 'U' =>
+    -- the held Close returns; the closer goes on with the next entry of its snapshot
+    match d.closing with
+    | [] => some d
+    | c :: rest => (hpStep { d with closing := rest } (.close c)).map fun d1 => { d1 with closing := rest }
   | _ => none
 
 def hpRender (d : HpD) : String :=
@@ -234,7 +249,7 @@ def opsHostPool (op : String) (a : List Bytes) : Option String :=
   | "hostpool" =>
     match a with
     | [m, mode, fifo] :: ops =>
-      (hpRun ⟨init m.toNat (mode.toNat != 0) (fifo.toNat != 0), mode.toNat, [], [], [], []⟩ ops []).map (";".intercalate ·)
+      (hpRun { s := init m.toNat (mode.toNat != 0) (fifo.toNat != 0), mode := mode.toNat, actors := [], dials := [], rets := [], wtab := [] } ops []).map (";".intercalate ·)
     | _ => none
   | "wcq" => (wcqRun WQ.empty [] a []).map (";".intercalate ·)
   | _ => none
